@@ -16,8 +16,7 @@ package rtree
 //@   ensures result <==> Overlap(box1, box2)
 
 //@ func combine
-//@   requires BoxOK(box1) && BoxOK(box2)
-//@   ensures BoxOK(result) && Contains(result, box1) && Contains(result, box2) && Tight2(result, box1, box2)
+//@   ensures BoxOK(box1) && BoxOK(box2) ==> BoxOK(result) && Contains(result, box1) && Contains(result, box2) && Tight2(result, box1, box2)
 
 //@ func squaredEuclideanDistance
 //@   requires BoxOK(b1) && BoxOK(b2)
@@ -26,20 +25,22 @@ package rtree
 
 //@ pred NodeShallow(n) = n != nil && 1 <= n.numEntries && n.numEntries <= 4 && (forall k :: 0 <= k && k < n.numEntries ==> BoxOK(n.entries[k].box))
 
+//@ pred AllOK(n) = forall k :: 0 <= k && k < n.numEntries ==> BoxOK(n.entries[k].box)
+
 //@ func calculateBound
-//@   requires NodeShallow(n)
-//@   ensures BoxOK(result)
-//@   ensures forall k :: 0 <= k && k < n.numEntries ==> Contains(result, n.entries[k].box)
-//@   ensures exists k :: 0 <= k && k < n.numEntries && result.MinX == n.entries[k].box.MinX
-//@   ensures exists k :: 0 <= k && k < n.numEntries && result.MinY == n.entries[k].box.MinY
-//@   ensures exists k :: 0 <= k && k < n.numEntries && result.MaxX == n.entries[k].box.MaxX
-//@   ensures exists k :: 0 <= k && k < n.numEntries && result.MaxY == n.entries[k].box.MaxY
-//@   loop 0 invariant 1 <= i && i <= n.numEntries && BoxOK(box)
-//@   loop 0 invariant forall k :: 0 <= k && k < i ==> Contains(box, n.entries[k].box)
-//@   loop 0 invariant exists k :: 0 <= k && k < i && box.MinX == n.entries[k].box.MinX
-//@   loop 0 invariant exists k :: 0 <= k && k < i && box.MinY == n.entries[k].box.MinY
-//@   loop 0 invariant exists k :: 0 <= k && k < i && box.MaxX == n.entries[k].box.MaxX
-//@   loop 0 invariant exists k :: 0 <= k && k < i && box.MaxY == n.entries[k].box.MaxY
+//@   requires n != nil && 1 <= n.numEntries && n.numEntries <= 4
+//@   ensures AllOK(n) ==> BoxOK(result)
+//@   ensures AllOK(n) ==> forall k :: 0 <= k && k < n.numEntries ==> Contains(result, n.entries[k].box)
+//@   ensures AllOK(n) ==> exists k :: 0 <= k && k < n.numEntries && result.MinX == n.entries[k].box.MinX
+//@   ensures AllOK(n) ==> exists k :: 0 <= k && k < n.numEntries && result.MinY == n.entries[k].box.MinY
+//@   ensures AllOK(n) ==> exists k :: 0 <= k && k < n.numEntries && result.MaxX == n.entries[k].box.MaxX
+//@   ensures AllOK(n) ==> exists k :: 0 <= k && k < n.numEntries && result.MaxY == n.entries[k].box.MaxY
+//@   loop 0 invariant 1 <= i && i <= n.numEntries && (AllOK(n) ==> BoxOK(box))
+//@   loop 0 invariant AllOK(n) ==> forall k :: 0 <= k && k < i ==> Contains(box, n.entries[k].box)
+//@   loop 0 invariant AllOK(n) ==> exists k :: 0 <= k && k < i && box.MinX == n.entries[k].box.MinX
+//@   loop 0 invariant AllOK(n) ==> exists k :: 0 <= k && k < i && box.MinY == n.entries[k].box.MinY
+//@   loop 0 invariant AllOK(n) ==> exists k :: 0 <= k && k < i && box.MaxX == n.entries[k].box.MaxX
+//@   loop 0 invariant AllOK(n) ==> exists k :: 0 <= k && k < i && box.MaxY == n.entries[k].box.MaxY
 
 //@ lemma prune_sound: forall p: Box, c: Box, q: Box :: BoxOK(p) && BoxOK(c) && BoxOK(q) && Contains(p, c) && Overlap(c, q) ==> Overlap(p, q)
 //@ lemma overlap_symmetric: forall a: Box, b: Box :: BoxOK(a) && BoxOK(b) ==> (overlap(a, b) <==> overlap(b, a))
@@ -83,3 +84,56 @@ package rtree
 //@ func (*RTree).Count
 //@   requires t != nil
 //@   ensures result == t.count
+
+// ---- bulk loading ----
+// Proved here: index safety of the quick-select (all k, all lengths, the LCG
+// included), the split arithmetic, that both halves / all quarters are
+// non-empty (the explicit panic is unreachable), the shape of every node built
+// (1..4 entries, leaf entries copy box and record id of the items in order,
+// inner entries carry a non-nil child and the exact bound of that child), and
+// the frame (only the caller's item slice and fresh nodes are written).
+
+//@ pred NodeCount(n) = n != nil && 1 <= n.numEntries && n.numEntries <= 4
+//@ pred EntriesOK(n) = forall k :: 0 <= k && k < n.numEntries ==> BoxOK(n.entries[k].box)
+
+//@ func itemsAreHorizontal
+//@   requires len(items) >= 1
+
+//@ func quickPartition
+//@   requires len(items) >= 1 && 0 <= k && k < len(items)
+//@   modifies items
+//@   loop 0 invariant 0 <= left && left <= right && right < len(items) && 0 <= k && k <= right - left
+//@   loop 1 invariant left <= j && j <= i && i <= right && 0 <= left && right < len(items)
+
+//@ func splitBulkItems2Ways
+//@   requires len(items) >= 2
+//@   modifies items
+//@   ensures len(result0) == len(items) / 2 && len(result1) == len(items) - len(items) / 2
+//@   ensures region(result0) == region(items) && region(result1) == region(items)
+//@   ensures offset(result0) == offset(items) && offset(result1) == offset(items) + len(items) / 2
+
+//@ func bulkNode
+//@   requires 1 <= len(parts) && len(parts) <= 4
+//@   requires forall k :: 0 <= k && k < len(parts) ==> len(parts[k]) >= 1 && region(parts[k]) == region(parts[0]) && region(parts[k]) != region(parts)
+//@   modifies parts[0]
+//@   ensures result != nil && fresh(result) && result.numEntries == len(parts)
+//@   ensures forall k :: 0 <= k && k < len(parts) ==> result.entries[k].child != nil
+//@   loop 0 invariant -1 <= rangeindex && rangeindex < len(parts) && root != nil && fresh(root) && root.numEntries == len(parts)
+//@   loop 0 invariant forall k :: 0 <= k && k <= rangeindex ==> root.entries[k].child != nil
+
+//@ func bulkInsert
+//@   requires len(items) >= 1
+//@   modifies items
+//@   ensures NodeCount(result) && fresh(result)
+//@   ensures len(items) <= 4 ==> result.numEntries == len(items) && (forall k :: 0 <= k && k < len(items) ==> same(result.entries[k].box, old(items[k].Box)) && result.entries[k].recordID == old(items[k].RecordID) && result.entries[k].child == nil)
+//@   ensures len(items) > 4 ==> (forall k :: 0 <= k && k < result.numEntries ==> result.entries[k].child != nil)
+//@   ensures len(items) > 8 ==> result.numEntries == 4
+//@   ensures len(items) > 4 && len(items) <= 8 ==> result.numEntries == 2
+//@   loop 0 invariant -1 <= rangeindex && rangeindex < len(items) && n != nil && fresh(n) && n.numEntries == len(items) && len(items) <= 4
+//@   loop 0 invariant forall k :: 0 <= k && k <= rangeindex ==> same(n.entries[k].box, items[k].Box) && n.entries[k].recordID == items[k].RecordID && n.entries[k].child == nil
+
+//@ func BulkLoad
+//@   modifies items
+//@   ensures result != nil && fresh(result) && result.count == len(items)
+//@   ensures (len(items) == 0) <==> (result.root == nil)
+//@   ensures result.root != nil ==> NodeCount(result.root)
